@@ -89,13 +89,23 @@ func (g *ogen) jxNode() onode {
 		// the piped value goes where the slot is, whatever the other arguments evaluate on the way
 		{"{{ \"x\" | cat(exec(\"/opipe.jet\"), \"+\", _) }}", g.escape("r+x")}, {"{{ \"x\" | cat: exec(\"/opipe.jet\"), _ }}", g.escape("rx")},
 		{"{{ \"x\" | rec(exec(\"/opipe.jet\"), _) }}", g.escape("[r x]")}, {"{{ \"x\" | rec(exec(\"/opipe.jet\")) }}", g.escape("[x r]")},
+		// D57: a numeric index the key type cannot represent names no entry (it is not the key it wraps / truncates to)
+		{"{{ m8[44] }}|{{ m8[300] }}|{{ isset(m8[300]) }}|{{ " + v + ", " + ok + " := m8[300] }}{{" + ok + "}}", g.E("x") + "||" + g.E("false") + "|" + g.E("false")},
+		{"{{ mi1[1] }}|{{ mi1[1.5] }}|{{ isset(mi1[1.5]) }}|{{ isset(mi1[ia - ia + 1]) }}", g.E("one") + "||" + g.E("false") + "|" + g.E("true")},
+		{"{{ mu1[1] }}|{{ mu1[0 - 1] }}|{{ isset(mu1[0 - ia]) }}", g.E("uone") + "||" + g.E("false")},
+		// D58: a nil value of an interface type with methods prints like any nil, through every writer
+		{"{{ nerr.E }}|{{ nerr.St | raw }}|{{ nerr.Errs[\"k\"] }}|{{range nerr.Strs}}[{{.}}]{{end}}|{{ isset(nerr.E) }}", g.escape("<nil>") + "|<nil>|" + g.escape("<nil>") + "|[" + g.escape("<nil>") + "]|" + g.E("false")},
+		{"{{try}}{{ nerr.E }}{{catch}}DEAD{{end}}{{ safeHtml: nerr.St }}", g.escape("<nil>") + htmlEsc("<nil>")},
+		// D59: '_' as a target of the assigning form of range discards
+		{"{{ " + v + " := 0 }}{{range _, " + v + " = li}}{{" + v + "}};{{end}}{{" + v + "}}", g.E(3) + ";" + g.E(0) + ";" + g.E(7) + ";" + g.E(7)},
+		{"{{ " + v + " := 9 }}{{range " + v + ", _ = li}}{{" + v + "}}{{end}}|{{range _ = li}}x{{end}}", g.E(0) + g.E(1) + g.E(2) + "|xxx"},
 		// a map keyed by a defined string type is a map with string keys
 		{"{{ isset(langs.en) }}{{ isset(langs[\"de\"]) }}{{ isset(langs.fr) }}", g.E("true") + g.E("true") + g.E("false")},
 		{"{{ langs.en }}|{{ langs[\"de\"] }}|{{ " + v + ", " + ok + " := langs[\"en\"] }}{{" + ok + "}}", g.escape("Hello<") + "|" + g.E("Hallo") + "|" + g.E("true")},
 	}
 	c := cs[r.Intn(len(cs))]
 	// each flavour leans towards the constructs that speak about its own property
-	want := map[string]string{"fields": "pets", "isset": r.Pick([]string{"mn[", "langs"}), "try": "{{try}}", "include": "octx", "control": r.Pick([]string{"nan", "owide", "else if"}), "calls": r.Pick([]string{"| rec", "opipe"}), "escape": "owr", "scope": "else if"}[g.flavor]
+	want := map[string]string{"fields": r.Pick([]string{"pets", "m8[", "mi1[", "nerr"}), "isset": r.Pick([]string{"mn[", "langs"}), "try": "{{try}}", "include": "octx", "control": r.Pick([]string{"nan", "owide", "else if", "range _"}), "calls": r.Pick([]string{"| rec", "opipe"}), "escape": r.Pick([]string{"owr", "nerr"}), "errors": r.Pick([]string{"nerr", "range _", "mu1["}), "scope": "else if"}[g.flavor]
 	for try := 0; want != "" && try < 4 && !strings.Contains(c.src, want); try++ {
 		c = cs[r.Intn(len(cs))]
 	}
@@ -798,7 +808,8 @@ func genOracleProgram(r *h.Rand, flavor string) (*prog, *sx.Sexp) {
 		p.files["/owide.jet"] = "{{range i, v := ints(wlo, whi)}}{{return v}}{{else}}{{return \"EMPTY\"}}{{end}}"
 		p.files["/owide2.jet"] = "{{ o := \"\" }}{{range i, v := ints(wlo, whi)}}{{ o = o + i + \":\" + v + \";\" }}{{if i == 1}}{{return o}}{{end}}{{else}}{{return \"EMPTY\"}}{{end}}"
 		p.files["/opipe.jet"] = "{{ \"in\" | upper }}{{ return \"r\" }}"
-		vars.Add(bind("wlo", vInt(-6000000000000000000))).Add(bind("whi", vInt(6000000000000000000))).Add(bind("langs", gov("langmap"))).Add(bind("cat", vFunc("cat")))
+		vars.Add(bind("wlo", vInt(-6000000000000000000))).Add(bind("whi", vInt(6000000000000000000))).Add(bind("langs", gov("langmap"))).Add(bind("cat", vFunc("cat"))).
+			Add(bind("m8", gov("map8"))).Add(bind("mi1", gov("mapint"))).Add(bind("mu1", gov("mapuint"))).Add(bind("nerr", gov("nilerrs")))
 	}
 	vars.Add(bind("bu", vUint(9223372036854775808))).Add(bind("bv", vUint(18446744073709551615))).Add(bind("ub", vUint(1)))
 	// templates that exist but do not parse: including them is a failure, however it is spelled
